@@ -32,3 +32,23 @@ func WriteUnsortedDir(st *store.Store, names []string, entries map[string]cid.Ci
 	st.Put(c, b)
 	return c
 }
+
+// NamedLink is one directory link of WriteDirLinks.
+type NamedLink struct {
+	Name string
+	Cid  cid.Cid
+}
+
+// WriteDirLinks writes a basic directory block with exactly the given links
+// in the given order: names may repeat (dag-pb does not forbid it; readers
+// resolve a name to the FIRST link carrying it) and need not be sorted.
+func WriteDirLinks(st *store.Store, links []NamedLink) cid.Cid {
+	n := &RawNode{Data: []byte{0x08, 0x01}, HasData: true} // Type=Directory
+	for _, l := range links {
+		n.Links = append(n.Links, RawLink{Hash: l.Cid.Bytes(), HasHash: true, Name: l.Name, HasName: true, Tsize: 1, HasTsize: true})
+	}
+	b := n.Encode()
+	c, _ := cid.Prefix{Version: 1, Codec: cid.DagProtobuf, MhType: mh.SHA2_256, MhLength: 32}.Sum(b)
+	st.Put(c, b)
+	return c
+}
